@@ -110,6 +110,10 @@ Section HistModel.
     fold_left (step keep mods) ops x.
 
   (* ---- wiring facts used by the protocol *)
+  Definition shell (h : hmod) : module K :=
+    {| m_ins := h_ins h; m_outs := h_outs h; m_fwd := fun _ => []; m_adj := fun _ => [] |}.
+  (* acyclic wiring, as in Net.v *)
+  Definition hwf (mods : list hmod) : bool := wf_net (map shell mods).
   Definition h_written (mods : list hmod) : list nat := flat_map h_outs mods.
   Definition sig_refs (rs : list ref) : list nat :=
     flat_map (fun r => match r with RSig s => [s] | _ => [] end) rs.
@@ -125,7 +129,7 @@ Section HistModel.
     match o with
     | OSet s v => ~ In s (h_written mods) /\ length v = length (s_st x s)
     | OResp => True
-    | OSeed s w => direct mods s = true /\ length w = length (s_st x s)
+    | OSeed s w => direct mods s = true /\ length w = length (s_st x s) /\ s_fresh x = true
     | OSens => s_fresh x = true
     | OReset => True
     end.
@@ -137,9 +141,10 @@ Section HistModel.
     end.
 
   (* ---- a freshly constructed network with the given inputs: nothing computed, nothing remembered *)
-  Definition fresh (keep : nat -> bool) (mods : list hmod) (mem0 : list M) (inputs : tenv) : nst :=
+  (* keep s: the signal was constructed with a (zero) sensitivity array of its shape, Signal(..., sensitivity=zeros) *)
+  Definition fresh (dims : nat -> nat) (keep : nat -> bool) (mods : list hmod) (mem0 : list M) (inputs : tenv) : nst :=
     {| s_st := fun s => if mem s (h_written mods) then [] else inputs s;
-       s_se := fun s => if keep s then Some (vzero (length (inputs s))) else None;
+       s_se := fun s => if keep s then Some (vzero (dims s)) else None;
        s_mem := mem0; s_fresh := false |}.
 
   (* the cycle the property speaks about *)
@@ -159,7 +164,7 @@ Section HistModel.
     (forall mu xs, h_resp h mu xs = (mu, f xs)) /\ (forall mu, h_sens h mu = g).
 
   (* a cache that is always a function of the inputs of the latest response:
-     Good mu last  --  mu is a memory the module can have when its latest response ran on `last` (None: never ran) *)
+     Good mu last  :  mu is a memory the module can have when its latest response ran on `last` (None: never ran) *)
   Definition cache_correct (h : hmod) (mu0 : M) (Good : M -> option (list vec) -> Prop)
              (f : list vec -> list vec) (g : list vec -> list vec -> list vec -> list (option vec)) : Prop :=
     Good mu0 None /\
